@@ -95,13 +95,30 @@ def expected(chunks, reg, g, tl, tr):
     return res
 
 
+def _constructed(I, XB, capacity):
+    """an XBuffer instance as the CURRENT constructor leaves it (whatever it initialises besides the documented state
+    is there, with its initial value); the abstract state is put in place by the caller afterwards"""
+    from ..peval import Builtin, Opaque
+
+    me = Obj("instance", {}, cls=XB)
+    ctx = Obj("context", {"minimum_alignment": Sym(Poly.atom("A"))}, name="ctx")
+    me.attrs["_make_context"] = Builtin("_make_context", lambda: ctx)
+    me.attrs["_new_buffer"] = Builtin("_new_buffer", lambda c: Opaque("storage0"))
+    init, owner = I.find_in_class(XB, "__init__")
+    if owner is not None:
+        I.call(I._bind(init, me, XB), [], {"capacity": capacity})
+    del me.attrs["_new_buffer"]
+    return me
+
+
 def _mk_self(I, chunks):
     XB = I.global_lookup("context", "XBuffer")
     Chunk = I.global_lookup("context", "Chunk")
     objs = []
     for s, e in chunks:
         objs.append(I.call(Chunk, [Sym(_pt(s)), Sym(_pt(e))], {}))
-    me = Obj("instance", {"chunks": objs}, cls=XB)
+    me = _constructed(I, XB, Sym(Poly.atom("cap0")))
+    me.attrs["chunks"] = objs
     return me, objs
 
 
@@ -400,7 +417,8 @@ def am(cx):
             XB = I.global_lookup("context", "XBuffer")
             Chunk = I.global_lookup("context", "Chunk")
             objs = [I.call(Chunk, [Sym(Poly.atom(f"s{i}")), Sym(Poly.atom(f"e{i}"))], {}) for i in range(n)]
-            me = Obj("instance", {"chunks": objs, "capacity": Sym(cap), "default_alignment": Sym(Poly.atom("A")), "grow_step": (Sym(gstep) if gstep is not None else None), "buffer": Opaque("storage0")}, cls=XB)
+            me = _constructed(I, XB, Sym(cap))
+            me.attrs.update({"chunks": objs, "capacity": Sym(cap), "default_alignment": Sym(Poly.atom("A")), "grow_step": (Sym(gstep) if gstep is not None else None), "buffer": Opaque("storage0")})
             def _nb(c):
                 st_new = Opaque(f"storage{len(I.effects) + 1}")
                 I.effects.append(Effect("new_buffer", size=c, ret=st_new))
